@@ -45,15 +45,24 @@ fn universe() -> &'static Vec<String> {
     })
 }
 
-fn parse(s: &str) -> Result<(SemVer, osem::Sem), Bad> {
-    let z = SemVer::from_str(s).map_err(|e| Bad::Fail(format!("generator produced {s:?} which zerv rejects: {e}")))?;
+/// None: a numeric identifier beyond u64 that zerv rejects (its documented range) - nothing to
+/// compare.  When zerv *accepts* such a string, the pair is judged like any other: the oracle
+/// compares digit strings of any magnitude.
+fn parse(s: &str) -> Result<Option<(SemVer, osem::Sem)>, Bad> {
     let o = osem::parse_v(s).ok_or_else(|| Bad::Fail(format!("harness bug: oracle rejects {s:?}")))?;
-    Ok((z, o))
+    match SemVer::from_str(s) {
+        Ok(z) => Ok(Some((z, o))),
+        Err(_) if !osem::all_numbers_fit_u64(&o) => Ok(None),
+        Err(e) => Err(Bad::Fail(format!("generator produced {s:?} which zerv rejects: {e}"))),
+    }
 }
 
 fn check_pair(p: &(String, String), cx: &mut Cx) -> Res {
-    let (a, oa) = parse(&p.0)?;
-    let (b, ob) = parse(&p.1)?;
+    let (Some((a, oa)), Some((b, ob))) = (parse(&p.0)?, parse(&p.1)?) else {
+        cx.label("beyond-u64-rejected");
+        return Ok(());
+    };
+    cx.label_if(!osem::all_numbers_fit_u64(&oa) || !osem::all_numbers_fit_u64(&ob), "beyond-u64-accepted");
     let want = osem::cmp(&oa, &ob);
     let got = a.cmp(&b);
     let rev = b.cmp(&a);
@@ -73,9 +82,11 @@ fn check_pair(p: &(String, String), cx: &mut Cx) -> Res {
 }
 
 fn check_triple(t: &(String, String, String), cx: &mut Cx) -> Res {
-    let a = parse(&t.0)?.0;
-    let b = parse(&t.1)?.0;
-    let c = parse(&t.2)?.0;
+    let (Some(a), Some(b), Some(c)) = (parse(&t.0)?, parse(&t.1)?, parse(&t.2)?) else {
+        cx.label("beyond-u64-rejected");
+        return Ok(());
+    };
+    let (a, b, c) = (a.0, b.0, c.0);
     cx.nt_if(t.0 != t.1 && t.1 != t.2 && t.0 != t.2);
     cx.note(|| format!("{:?}", t));
     let (ab, bc, ac) = (a.cmp(&b), b.cmp(&c), a.cmp(&c));
@@ -92,9 +103,16 @@ fn check_triple(t: &(String, String, String), cx: &mut Cx) -> Res {
 }
 
 fn big_version() -> BoxedStrategy<String> {
+    // one version in ten carries numeric identifiers beyond u64
+    prop_oneof![9 => big_version_with(0), 1 => big_version_with(2)].boxed()
+}
+fn big_version_with(beyond_u64_weight: u32) -> BoxedStrategy<String> {
     // large numbers (u64 range), identifier lists up to 8, shared prefixes likely
     let id = prop_oneof![
         3 => gens::num::u64_biased().prop_map(|n| n.to_string()),
+        // beyond u64: zerv may reject the version (documented range) - but if it accepts it, it
+        // has to order it by value like any other number
+        beyond_u64_weight => prop_oneof![Just("18446744073709551616".to_string()), "[1-9][0-9]{19,24}".prop_map(String::from), Just("100000000000000000000".to_string()), Just("20000000000000000000".to_string())],
         2 => gens::pick(&["a", "A", "b", "alpha", "beta", "rc", "-", "a-", "a0", "0a", "10a", "Z", "z", "--"]).prop_map(String::from),
         1 => "[0-9A-Za-z-]{0,3}[A-Za-z-][0-9A-Za-z-]{0,3}",
     ];
@@ -120,7 +138,7 @@ fn big_version() -> BoxedStrategy<String> {
 fn related_pair() -> BoxedStrategy<(String, String)> {
     prop_oneof![
         2 => (big_version(), big_version()),
-        3 => (big_version(), proptest::collection::vec(gens::pick(&["0", "1", "9", "10", "a", "B", "-", "18446744073709551615"]), 0..3), any::<bool>(), gens::pick(&BUILDS)).prop_map(|(a, extra, swap, build)| {
+        3 => (big_version(), proptest::collection::vec(gens::pick(&["0", "1", "9", "10", "a", "B", "-", "18446744073709551615", "18446744073709551616", "100000000000000000000", "99999999999999999999"]), 0..3), any::<bool>(), gens::pick(&BUILDS)).prop_map(|(a, extra, swap, build)| {
             // b = a with extra identifiers appended / last identifier changed
             let core_pre = a.split('+').next().unwrap().to_string();
             let mut b = core_pre.clone();
@@ -199,6 +217,10 @@ fn check_git_max(c: &GitTagsCase, cx: &mut Cx) -> Res {
     let g = osem::parse_v(&got).ok_or_else(|| Bad::Fail(format!("chosen tag {got:?} is not SemVer")))?;
     for t in &made {
         if let Some(o) = osem::parse_v(t) {
+            // a tag with a number beyond u64 counts only if zerv accepts it as a version at all
+            if !osem::all_numbers_fit_u64(&o) && SemVer::from_str(t).is_err() {
+                continue;
+            }
             ensure!(osem::cmp(&o, &g) != Ordering::Greater, "zerv chose {got} on a commit tagged {made:?}, but {t} is greater ({})", repo.log.join("; "));
         }
     }
@@ -282,18 +304,27 @@ pub fn property() -> Property {
         },
         |tags, cx| {
             let valid = GitUtils::filter_only_valid_tags(tags, "semver");
-            ensure!(valid.len() == tags.len(), "filter_only_valid_tags dropped valid SemVer tags from {tags:?}");
+            let names: Vec<String> = valid.iter().map(|v| v.0.clone()).collect();
+            // tags with a number beyond u64 may be dropped (documented range); nothing else may
+            for t in tags {
+                let fits = osem::all_numbers_fit_u64(&osem::parse_v(t).unwrap());
+                ensure!(!fits || names.contains(t), "filter_only_valid_tags dropped the valid SemVer tag {t:?} from {tags:?}");
+            }
+            if valid.is_empty() {
+                cx.label("beyond-u64-rejected");
+                return Ok(());
+            }
             let got = match no_panic(|| GitUtils::find_max_version_tag(&valid)) {
                 Ok(Ok(Some(t))) => t,
-                other => return fail(format!("find_max_version_tag({tags:?}) = {other:?}")),
+                other => return fail(format!("find_max_version_tag({names:?}) = {other:?}")),
             };
-            cx.nt_if(tags.len() >= 2);
-            cx.note(|| format!("{tags:?} -> {got}"));
-            ensure!(tags.contains(&got), "returned tag {got:?} is not in the list {tags:?}");
+            cx.nt_if(names.len() >= 2);
+            cx.note(|| format!("{names:?} -> {got}"));
+            ensure!(names.contains(&got), "returned tag {got:?} is not in the list {names:?}");
             let g = osem::parse_v(&got).unwrap();
-            for t in tags {
+            for t in &names {
                 let o = osem::parse_v(t).unwrap();
-                ensure!(osem::cmp(&o, &g) != Ordering::Greater, "max tag {got} of {tags:?} is exceeded by {t}");
+                ensure!(osem::cmp(&o, &g) != Ordering::Greater, "max tag {got} of {names:?} is exceeded by {t}");
             }
             let _ = VersionObject::parse_semver(&got);
             Ok(())
@@ -317,7 +348,7 @@ pub fn property() -> Property {
     Property {
         id: "C10",
         rule: "cases = ordered pairs / triples of SemVer strings and tag lists. Exhaustive: all 3200^2 ordered pairs of a small universe and pre-release triples; random: large numbers (to u64::MAX), identifier lists up to 8, pairs sharing a prefix. Oracle: independent SemVer 2.0.0 §11 comparator on digit strings; laws (antisymmetry, transitivity, == iff Equal) checked without the oracle. Non-trivial = the strings of the pair/triple differ (pairs) or are pairwise different (triples), tag lists with >=2 tags; distinct = distinct tuples.",
-        assumptions: vec!["all generated versions have numbers <= u64::MAX (the parser's documented range)"],
+        assumptions: vec!["versions with a numeric identifier beyond u64::MAX may be rejected (the parser's documented range); when zerv accepts one it is ordered by value like any other"],
         subs: vec![pairs.boxed(), triples_enum.boxed(), rand_pairs.boxed(), rand_triples.boxed(), max_tag.boxed(), git_max.boxed()],
         known_repro: vec![],
     }
